@@ -10,6 +10,7 @@ import tlc
 import checks_codec as cc
 import checks_extend
 import checks_fuzz
+import checks_text
 
 
 def c01(tier, seed):
@@ -40,7 +41,7 @@ def c06(tier, seed):
 
 REPLAYERS = {}
 
-CHECKS = {'C08': checks_fuzz.c08, 'C07': checks_extend.c07, 'C06': c06, 'C05': c05, 'C01': c01, 'C03': c03, 'C16': c16}
+CHECKS = {'C02': checks_text.c02, 'C08': checks_fuzz.c08, 'C07': checks_extend.c07, 'C06': c06, 'C05': c05, 'C01': c01, 'C03': c03, 'C16': c16}
 
 
 def setup():
